@@ -13,6 +13,10 @@ Everything outside the loop is a parameter (`Env`), chosen adversarially:
   * `ext k`   — what other threads did to the `PollInfo`s while the k-th call ran (each also sets the trigger event),
   * `wake k`  — the k-th `triggerPoll.wait`: what other threads do while it lasts, as batches `(d, exts)`: `d` ticks after
                 the wait began `exts` happen; the wait ends there if that set the event, otherwise at its time-out.
+                (`d = 0`: between the computation of `wait_time` and the entry of `wait`.)
+  * `gap k`   — what other threads do between the return of the k-th `triggerPoll.wait` of the loop and the
+                `triggerPoll.clear()` that follows it (their setting of the event is wiped out by the `clear`; the
+                loop then starts over and re-reads every `PollInfo`, which is why nothing is lost).
 
     while modules:
         now = time.time()                                                     -- readClock
@@ -104,6 +108,7 @@ structure Env where
   touch : Nat → List Touch
   ext : Nat → List Ext
   wake : Nat → List (Nat × List Ext)
+  gap : Nat → List Ext
 
 /-- an entry of `to_poll`: (module index, parameter) -/
 abbrev Entry := Nat × Nat
@@ -236,9 +241,10 @@ def waitEvent (env : Env) (σ : PollState) (timeout : Nat) : PollState :=
   let σ1 : PollState := if σ.trig then σ else waitBatches timeout σ.clock (env.wake k) σ
   { σ1 with nWait := k + 1 }
 
-/-- `self.triggerPoll.wait(wait_time); self.triggerPoll.clear()` -/
+/-- `self.triggerPoll.wait(wait_time); self.triggerPoll.clear()`: other threads may act between the two
+(`env.gap`, indexed by the number of the wait); the `clear` comes last -/
 def doWait (env : Env) (σ : PollState) (timeout : Nat) : PollState :=
-  { waitEvent env σ timeout with trig := false }
+  { applyExts (env.gap σ.nWait) (waitEvent env σ timeout) with trig := false }
 
 /-! ## main polls -/
 
@@ -388,6 +394,21 @@ def prologue (c : Consts) (env : Env) (σ : PollState) : ProRes :=
   else
     let r2 := readAll env (allEntries 0 r1.σ.mods) r1.σ r1.evs
     if r2.aborted then ⟨waitEvent env r2.σ c.startupWait, r2.evs, true⟩ else r2
+
+/-! ## the state the thread starts in -/
+
+/-- `PollInfo.__init__(pollinterval, trigger_event)` for a module of the thread's list: `interval = pollinterval`,
+`last_main = last_slow = 0`, `fast_flag = False` (a module with `enablePoll = False` gets no `PollInfo`; its fields
+are never looked at) -/
+def startMod (enabled : Bool) (slow : Nat) (polled : List Nat) (pollinterval : Nat) : Mod :=
+  { enabled := enabled, slow := slow, polled := polled, pollinterval := pollinterval, interval := pollinterval,
+    fast := false, lastMain := 0, lastSlow := 0, lastStart := 0 }
+
+/-- the state in which the thread body begins: nothing read or called yet, the event clear, `to_poll = ()`;
+the ghost `refreshed` starts as the time stamps the parameters already carry -/
+def startState (clock : Nat) (mods : List Mod) (stamp : Nat → Nat → Nat) : PollState :=
+  { clock := clock, nRead := 0, nCall := 0, nWait := 0, trig := false, mods := mods, toPoll := none,
+    stamp := stamp, refreshed := stamp }
 
 /-- the whole thread body for `n` turns of the loop -/
 def thread (c : Consts) (env : Env) (n : Nat) (σ : PollState) : TurnRes :=
